@@ -409,6 +409,7 @@ type world struct {
 	mark      bool            // measurements carry the vinst marker
 	byName    map[string]int  // scope id + lower-case OTel name -> instrument id (used when !mark)
 	gate      *gate           // rendezvous of overlapping scrapes (concurrent scenarios)
+	flt       *faultState     // armed faults of the collection + the external producer that fails (faults.go)
 }
 
 // one tracer provider for the process: measurements "inside a sampled span" get exemplars
@@ -548,6 +549,8 @@ func newWorldGate(o Opts, res []Attr, withGate bool) (*world, error) {
 		}
 		popts = append(popts, otelprom.WithResourceAsConstantLabels(attribute.NewAllowKeysFilter(allow...)))
 	}
+	w.flt = &faultState{on: map[string]bool{}}
+	popts = append(popts, otelprom.WithProducer(w.flt))
 	if withGate {
 		w.gate = &gate{ch: make(chan struct{})}
 		popts = append(popts, otelprom.WithProducer(w.gate))
@@ -974,6 +977,11 @@ func (w *world) sdkView() ([]SStream, error) {
 	if err := w.exp.Collect(context.Background(), &rm); err != nil {
 		return nil, err
 	}
+	return w.projectRM(&rm)
+}
+
+// projectRM projects what a collection of the reader produced.
+func (w *world) projectRM(rm *metricdata.ResourceMetrics) ([]SStream, error) {
 	out := []SStream{}
 	sid := func(i int) string { return w.scopeID(rm.ScopeMetrics[i].Scope) }
 	sort.Slice(rm.ScopeMetrics, func(a, b int) bool { return sid(a) < sid(b) })
